@@ -342,6 +342,122 @@ def reps_tie(ctx, nmax=64):
                      "first disagreement n=110 where r exceeds 2^53); the run checks n<=%d" % nmax)
 
 
+BOUNDARIES = {
+    "blackbox.py:56 np.clip(np.abs(a), 0.0, 1.0)":
+        "|a_k| = 0, 1e-200, 1e-12, 1e-6, 1e-3, 1-1e-3, 1-1e-6, 1-1e-12, 1-1ulp, 1, 1+1ulp (and the F-C19-1 probe), each at the "
+        "first and at the last index, n = 1, 2, 3, phases 1, -1, i, -i; the remaining weight on the other entries with one exact "
+        "zero.  Band: a clip bound moved by less than ~1e-7 changes the prepared amplitudes by less than the oracle tolerance "
+        "(theta = 2 arccos(1-eps) ~ 2 sqrt(2 eps)); only the tie (1e-9 on the angles) sees that",
+    "blackbox.py:57 -2 * np.angle(a)": "real negative amplitudes with imaginary part +0.0 (arg = pi) and -0.0 / -1e-300 (arg = -pi; "
+        "oracle only, JSON drops the sign of zero), purely imaginary, all-equal (uniform) vectors of either sign",
+    "blackbox.py:63 gate_u.qubits[1:], :72 control(num_qubits - 1, ctrl_state=0), :83 qubits[0:1]": "n = 1 (one H, one control), 2, 3, ..., 7",
+    "blackbox.py:75-78 repetitions = int(pi/4 * sqrt(N) / norm), :81 range(repetitions)":
+        "n = 1..7 every run: pi sqrt(N)/4 = 1.11, 1.57, 2.22, 3.14, 4.44, 6.28, 8.89 -> r = 1, 1, 2, 3, 4, 6, 8 (floor != round at "
+        "n = 2, 7; closed form sin((2r+1) theta) is evaluated with the exact-integer r, so r +- 1 shows at every n); vectors whose "
+        "norm is 1 +- 1ulp",
+    "blackbox.py:89 repetitions % 2 == 1": "odd r: n = 1, 2, 4; even r: n = 3, 5, 6, 7; every boundary vector at n = 1, 2 (odd) and 3 (even)",
+}
+
+ULP_UP, ULP_DN = float(np.nextafter(1.0, 2.0)), float(np.nextafter(1.0, 0.0))
+MODULI = [("0", 0.0), ("1e-200", 1e-200), ("1e-12", 1e-12), ("1e-6", 1e-6), ("1e-3", 1e-3), ("1-1e-3", 1 - 1e-3),
+          ("1-1e-6", 1 - 1e-6), ("1-1e-12", 1 - 1e-12), ("1-1ulp", ULP_DN), ("1", 1.0), ("1+1ulp", ULP_UP)]
+
+
+def special_vec(n, pos, a):
+    """amplitude `a` at index pos; the remaining weight sqrt(1 - |a|^2) on the other entries, one of them exactly 0 (N > 2)"""
+    N = 2 ** n
+    v = np.zeros(N, dtype=complex)
+    v[pos] = a
+    rest = [i for i in range(N) if i != pos]
+    w2 = max(0.0, 1.0 - abs(a) ** 2)
+    if w2 > 0:
+        if len(rest) > 1:
+            rest = rest[1:] if pos else rest[:-1]          # the zero sits at the opposite end
+        for j, i in enumerate(rest):
+            v[i] = math.sqrt(w2 / len(rest)) * [1, -1j, -1, 1j][(j + pos) % 4]
+    return clean(v)
+
+
+def bcase(ctx, n, name, v, tag, tie=True):
+    ctx.count("boundary:" + name)
+    circ = None
+    if tie:
+        try:
+            circ = tie_case(ctx, n, "bv", v)
+        except Exception:
+            circ = None                     # oracle_case reports the exception
+    oracle_case(ctx, n, "bv", v, f"n={n}:bv:{tag}", circ=circ)
+
+
+def boundary_cases(ctx):
+    # ---- moduli at and around the clip bounds, first / last index
+    for n in (1, 2, 3):
+        N = 2 ** n
+        for pi_, pos in enumerate((0, N - 1)):
+            for mi, (mname, mod) in enumerate(MODULI):
+                ph = [1, -1, 1j, -1j][(mi + pi_ + n) % 4]
+                v = special_vec(n, pos, mod * ph)
+                bcase(ctx, n, f"|a| = {mname}", v, f"mod={mname}:pos={'first' if pos == 0 else 'last'}:ph={ph}")
+    for n in (4, 5):
+        for mname, mod in (("0", 0.0), ("1-1ulp", ULP_DN), ("1", 1.0), ("1+1ulp", ULP_UP), ("1e-6", 1e-6)):
+            for pos in (0, 2 ** n - 1):
+                bcase(ctx, n, f"|a| = {mname}", special_vec(n, pos, -mod), f"mod={mname}:pos={pos}")
+    # ---- modulus 1 +- 1ulp produced by a complex phase (np.abs = hypot of two non-trivial parts), like the F-C19-1 probe
+    r = ctx.nprng()
+    found = {"1+1ulp": 0, "1-1ulp": 0, "1": 0}
+    for _ in range(400):
+        z = complex(r.normal(), r.normal())
+        z = z / abs(z)
+        m = float(np.abs(z))
+        nm = "1+1ulp" if m == ULP_UP else "1-1ulp" if m == ULP_DN else "1" if m == 1.0 else None
+        if nm is None or found[nm] >= 2:
+            continue
+        found[nm] += 1
+        n = 1 + found[nm]
+        v = [0j] * (2 ** n)
+        v[(2 ** n - 1) if found[nm] == 2 else 0] = z
+        bcase(ctx, n, f"basis state e^(i phi), modulus {nm}", v, f"phase-basis:{nm}:{found[nm]}")
+    # ---- exact zeros at the first / last index of an otherwise generic vector
+    for n in (1, 2, 3, 4, 5):
+        N = 2 ** n
+        for where, idx in (("first", [0]), ("last", [N - 1]), ("first and last", [0, N - 1])):
+            if len(idx) >= N:
+                continue
+            v = r.normal(size=N) + 1j * r.normal(size=N)
+            v[idx] = 0
+            bcase(ctx, n, f"zero amplitude at the {where} index", clean(v / np.linalg.norm(v)), f"zero:{where}")
+    # ---- arguments pi / -pi, imaginary axis, uniform vectors
+    for n in (1, 2, 3, 4):
+        N = 2 ** n
+        u = 1 / math.sqrt(N)
+        bcase(ctx, n, "uniform positive (all angles equal, phi = 0)", clean(np.full(N, u)), "uniform+")
+        bcase(ctx, n, "uniform negative (arg = pi everywhere)", clean(np.full(N, -u)), "uniform-")
+        bcase(ctx, n, "uniform, alternating signs", clean([u * (-1) ** k for k in range(N)]), "uniform+-")
+        bcase(ctx, n, "uniform imaginary", clean([u * (1j if k % 2 else -1j) for k in range(N)]), "uniform-i")
+        # arg = -pi: imaginary part -0.0 / -1e-300 (not through the tie: the sign of zero does not survive JSON)
+        vm = [complex(-u, -0.0)] * N
+        bcase(ctx, n, "real negative with imaginary part -0.0 (arg = -pi)", vm, "neg-minus-zero", tie=False)
+        vm = [complex(-u, -1e-300)] * (N - 1) + [complex(-u, 0.0)]
+        bcase(ctx, n, "real negative with imaginary part -1e-300 (arg = -pi)", vm, "neg-minus-tiny", tie=False)
+    bcase(ctx, 1, "real negative with imaginary part -0.0 (arg = -pi)", [complex(-1.0, -0.0), 0j], "basis-neg-minus-zero", tie=False)
+    bcase(ctx, 2, "real negative with imaginary part -0.0 (arg = -pi)", [0j, 0j, 0j, complex(-1.0, -0.0)], "basis-neg-minus-zero",
+          tie=False)
+    # ---- norm 1 +- 1ulp (the repetition count divides by the norm)
+    for n in (1, 2, 4, 6):
+        N = 2 ** n
+        seen = set()
+        for _ in range(60):
+            v = r.normal(size=N) + 1j * r.normal(size=N)
+            v = v / np.linalg.norm(v)
+            nv = float(np.linalg.norm(v))
+            if nv != 1.0 and (nv > 1) not in seen:
+                seen.add(nv > 1)
+                bcase(ctx, n, "norm = 1 %s 1ulp" % ("+" if nv > 1 else "-"), clean(v), f"norm:{'up' if nv > 1 else 'dn'}",
+                      tie=n <= 5)
+            if len(seen) == 2:
+                break
+
+
 def run(ctx, n_tie=None, n_or=None, draws=None):
     assumptions(ctx)
     reps_tie(ctx)
@@ -351,6 +467,7 @@ def run(ctx, n_tie=None, n_or=None, draws=None):
     # the concrete input of the (fixed) arccos-NaN defect: must pass
     oracle_case(ctx, 1, "probe", PROBE, "n=1:probe", circ=tie_case(ctx, 1, "probe", PROBE))
     entry_forms(ctx)
+    boundary_cases(ctx)
     for n in range(1, n_or + 1):
         for fam in FAMILIES:
             if fam == "pyth" and n < 1:
